@@ -4,6 +4,7 @@ import (
 	"encoding/json"
 	"fmt"
 	"math"
+	"sort"
 
 	"github.com/aclements/go-moremath/stats"
 
@@ -140,7 +141,7 @@ func c01Run(r *mon.Run) {
 	r.Rule("exhaustive: every tie vector T (composition of N into >=2 parts) x every allocation of tied values to the two samples x 3 alternatives for N<=10 (thorough 13), values = ranks pushed through a random strictly increasing map, samples shuffled; random: (T,allocation) shapes up to the exact limits. A case is non-trivial if it hits any class (K=2, mass at U-1/2, non-palindromic T, U1==U2, extreme U, limit sizes...); distinct by hash of (x1,x2,alt).")
 	r.Assume("reference distribution: subset enumeration (N<=14) / 128-bit generating-function DP, cross-checked at start-up for N<=9",
 		"MannWhitneyExactLimit/MannWhitneyTiesExactLimit at their current values define the exact domain")
-	r.Gate("K=2", "mass-at-U-half", "non-palindromic-T", "U1==U2", "U-extreme", "n-at-untied-limit", "n-at-tied-limit", "tied", "untied", "P-exact<1e-9", "P-exact-in-(4e-12,1e-9)", "far-tail")
+	r.Gate("K=2", "mass-at-U-half", "non-palindromic-T", "U1==U2", "U-extreme", "n-at-untied-limit", "n-at-tied-limit", "tied", "untied", "P-exact<1e-9", "P-exact-in-(4e-12,1e-9)", "far-tail", "same-sizes-and-U-under-different-tie-vectors")
 	if err := ref.USelfTest(r.Pick(8, 9)); err != nil {
 		r.Inconclusive("reference self-test failed: " + err.Error())
 		return
@@ -215,6 +216,90 @@ func c01Run(r *mon.Run) {
 		x1, x2 := samplesFromAlloc(rng, T, a, vals)
 		for _, alt := range alts {
 			c01Judge(w, c01Case{x1, x2, int(alt)})
+		}
+	})
+
+	// families of tie vectors that agree in everything a careless key could
+	// be made of — the sizes, U, the alternative, the multiset or the digits
+	// of the group sizes — and differ as vectors: all compositions of N into
+	// two or three groups (group sizes up to 13, so two-digit sizes occur),
+	// all allocations, bucketed by (n1, 2U); the members of a bucket are
+	// judged back to back, forwards and then backwards, each against its own
+	// exact distribution.
+	type famMember struct{ T, a []int }
+	buckets := map[[3]int][]famMember{}
+	for _, N := range []int{11, 12, 13, 14} {
+		var fam [][]int
+		for a := 1; a < N; a++ {
+			fam = append(fam, []int{a, N - a})
+			for b := 1; a+b < N; b++ {
+				fam = append(fam, []int{a, b, N - a - b})
+			}
+		}
+		for _, T := range fam {
+			T := T
+			ref.Allocations(T, func(a []int) {
+				n1 := sumInts(a)
+				if n1 == 0 || n1 == N {
+					return
+				}
+				// 2U from the allocation: pairs (first sample above second) + half the ties
+				twoU, below2 := 0, 0
+				for k := range T {
+					twoU += a[k] * (2*below2 + (T[k] - a[k]))
+					below2 += T[k] - a[k]
+				}
+				key := [3]int{N, n1, twoU}
+				buckets[key] = append(buckets[key], famMember{T, append([]int(nil), a...)})
+			})
+		}
+	}
+	var keys [][3]int
+	for k, ms := range buckets {
+		distinct := map[string]bool{}
+		for _, m := range ms {
+			distinct[fmt.Sprint(m.T)] = true
+		}
+		if len(distinct) >= 2 {
+			keys = append(keys, k)
+		}
+	}
+	sort.Slice(keys, func(i, j int) bool {
+		for d := 0; d < 3; d++ {
+			if keys[i][d] != keys[j][d] {
+				return keys[i][d] < keys[j][d]
+			}
+		}
+		return false
+	})
+	if r.Quick && len(keys) > 1500 {
+		// a fixed subsample in the quick tier
+		var sub [][3]int
+		for i := 0; i < len(keys); i += len(keys)/1500 + 1 {
+			sub = append(sub, keys[i])
+		}
+		keys = sub
+	}
+	r.Parallel("tie-vector-families", len(keys), func(w *mon.W, i int) {
+		ms := buckets[keys[i]]
+		w.Hit("same-sizes-and-U-under-different-tie-vectors")
+		order := make([]int, 0, 2*len(ms))
+		for k := range ms {
+			order = append(order, k)
+		}
+		for k := len(ms) - 1; k >= 0; k-- {
+			order = append(order, k)
+		}
+		for _, k := range order {
+			m := ms[k]
+			vals := make([]float64, len(m.T))
+			for j := range vals {
+				vals[j] = float64(j) - 1.5
+			}
+			x1, x2 := samplesFromAlloc(w.Rng, m.T, m.a, vals)
+			for _, alt := range alts {
+				c01Judge(w, c01Case{x1, x2, int(alt)})
+			}
 		}
 	})
 
